@@ -406,7 +406,7 @@ def run_driver(binp, prop, seed, n, tier, outdir):
     os.makedirs(outdir, exist_ok=True)
     cmd = ["timeout", str(prop.get("driver_timeout", 1500)), binp, "--seed", str(seed), "--n", str(n), "--tier", tier,
            "--out", outdir, "--shard", str(prop.get("shard", 1000)),
-           "--corpus", os.path.join(VERIF, "corpus", prop["driver"])]
+           "--corpus", os.path.join(VERIF, "corpus", prop["driver"])] + list(prop.get("driver_args", []))
     rc, out = run(cmd, cwd=outdir, env=GOENV)
     return rc, out
 
@@ -457,7 +457,9 @@ def finish(pid, prop, tier, seed, t0, obligations, discharged, total_eval, class
         "wall_s": round(time.time() - t0, 2),
         "violations": nviol,
     }
-    json.dump(ev, open(os.path.join(VERIF, "evidence", pid + ".json"), "w"), indent=1, default=str)
+    evdir = os.path.join(VERIF, "evidence") if REPO == "/repo" else "/var/tmp/verif-evidence-alt"
+    os.makedirs(evdir, exist_ok=True)   # runs against a scratch copy of the repository never touch committed evidence
+    json.dump(ev, open(os.path.join(evdir, pid + ".json"), "w"), indent=1, default=str)
 
 
 if __name__ == "__main__":
